@@ -602,6 +602,7 @@ pub fn gen_scenario(t: &mut Tape, p: &Profile) -> Scenario {
             unrelated_pm: if t.chance(400) { 20 + t.skewed(300) } else { 0 },
             corrupt_pm: 0,
             icmp_other_destination: false,
+            chatter_gap_ns: 0,
         }
     } else {
         InjectCfg::default()
